@@ -22,6 +22,7 @@ import (
 // Task means handle unit in time wheel
 type Task struct {
 	delay    time.Duration
+	deadline time.Time // when the task is due: the moment Add was called plus delay
 	key      interface{}
 	round    int // optimize time wheel to handle delay  bigger than bucketsNum * tick
 	callback func()
@@ -139,7 +140,7 @@ func (tw *TimeWheel) Add(delay time.Duration, key interface{}, callback func()) 
 	select {
 	case tw.pipelineC <- PipeLineItem{
 		key:   "add",
-		value: &Task{delay: delay, key: key, callback: callback},
+		value: &Task{delay: delay, deadline: time.Now().Add(delay), key: key, callback: callback},
 	}:
 	default:
 	}
@@ -147,14 +148,29 @@ func (tw *TimeWheel) Add(delay time.Duration, key interface{}, callback func()) 
 }
 
 func (tw *TimeWheel) add(task *Task) {
-	round := tw.calculateRound(task.delay)
-	index := tw.calculateIndex(task.delay)
+	delay := tw.remainingDelay(task)
+	round := tw.calculateRound(delay)
+	index := tw.calculateIndex(delay)
 	task.round = round
 	if originIndex, ok := tw.bucketIndexes[task.key]; ok {
 		delete(tw.buckets[originIndex], task.key)
 	}
 	tw.bucketIndexes[task.key] = index
 	tw.buckets[index][task.key] = task
+}
+
+// remainingDelay returns the time left until the task is due, rounded up to whole ticks.
+// It is evaluated when the loop takes the task out of the pipeline (up to one tick after
+// Add was called), so a task never fires before Add-time + delay and at most one tick after.
+func (tw *TimeWheel) remainingDelay(task *Task) time.Duration {
+	if task.deadline.IsZero() {
+		return task.delay
+	}
+	remaining := time.Until(task.deadline)
+	if remaining <= 0 {
+		return 0
+	}
+	return (remaining + tw.tick - 1) / tw.tick * tw.tick
 }
 
 func (tw *TimeWheel) calculateRound(delay time.Duration) (round int) {
